@@ -525,7 +525,9 @@ struct Harness : public AbstractGatewayMessageReceiver
    void OpMsg(int s, uint64_t gseed, uint32_t size)
    {
       s = ((s % senders) + senders) % senders;
-      if (size > 4000000) size = 4000000;
+      // (the generator never exceeds these; they keep a hand-edited or minimised plan from turning into millions of packets)
+      {const uint32_t cap = mini ? (mtu-(kMiniPktHdr+kMiniChunkHdr)) : (mtu-kTunnelChunkHdr); const uint64_t lim = std::min<uint64_t>(200000, (uint64_t) cap*150 + 512); if (size > lim) size = (uint32_t) lim;}
+      if (msgsSent >= 200) return;
       MessageRef m = BuildMsg(s, gseed, size);
       if (m() == NULL) Violate("harness", "could not build a Message");
       const std::string f = Flat(m);
